@@ -1,7 +1,263 @@
 package main
 
-// Schema contracts generated for every exported method (filled in below).
+// Schema contracts: generated for every exported method / function that
+// go/types finds, so that methods added later receive the obligations too.
+
+import (
+	"fmt"
+	"go/types"
+	"strings"
+
+	"golang.org/x/tools/go/ssa"
+)
+
+func mkClause(kind, label, expr string, tags ...string) *Clause {
+	a, err := parseExpr(expr)
+	if err != nil {
+		panic(fmt.Sprintf("schema clause %s: %v", label, err))
+	}
+	return &Clause{Kind: kind, Label: label, Expr: expr, Tags: tags, ast: a}
+}
+
+type recvInfo struct {
+	kind string // Stack, *Stack, Condition, *Condition, Auxiliary, other, none
+	name string
+}
+
+func recvOf(fn *ssa.Function) recvInfo {
+	sig := fn.Signature
+	if sig.Recv() == nil {
+		return recvInfo{kind: "none"}
+	}
+	name := fn.Params[0].Name()
+	switch typeKey(sig.Recv().Type()) {
+	case "Stack":
+		return recvInfo{"Stack", name}
+	case "*Stack":
+		return recvInfo{"*Stack", name}
+	case "Condition":
+		return recvInfo{"Condition", name}
+	case "*Condition":
+		return recvInfo{"*Condition", name}
+	case "Auxiliary":
+		return recvInfo{"Auxiliary", name}
+	}
+	return recvInfo{"other", name}
+}
+
+// inner: spec expression for the embedded pointer of the receiver
+func (r recvInfo) inner() string {
+	switch r.kind {
+	case "Stack", "Condition":
+		return r.name
+	case "*Stack":
+		return "F_Stack_stack[" + r.name + "]"
+	case "*Condition":
+		return "F_Condition_condition[" + r.name + "]"
+	}
+	return ""
+}
+
+func (r recvInfo) isStack() bool { return r.kind == "Stack" || r.kind == "*Stack" }
+func (r recvInfo) isCond() bool  { return r.kind == "Condition" || r.kind == "*Condition" }
+
+func (r recvInfo) wfExpr() string {
+	in := r.inner()
+	switch {
+	case r.isStack():
+		return fmt.Sprintf("wf(%s)", in)
+	case r.isCond():
+		return fmt.Sprintf("cwf(%s)", in)
+	}
+	return "true"
+}
+
+func (r recvInfo) ptrNonNil() string {
+	if r.kind == "*Stack" || r.kind == "*Condition" {
+		return r.name + " != nil && "
+	}
+	return ""
+}
+
+func (r recvInfo) roExpr() string {
+	in := r.inner()
+	if r.isStack() {
+		return fmt.Sprintf("bit(F_nodeConfig_opt[cfgOf(%s)], 0x0080)", in)
+	}
+	return fmt.Sprintf("bit(F_nodeConfig_opt[F_condition_cfg[%s]], 0x0080)", in)
+}
+
+var ghostFrameSkip = []string{"G_calls_", "G_held"}
+
+func zeroExpr(t types.Type, recv recvInfo) (string, bool) {
+	switch sortOfOrInt(t) {
+	case SInt:
+		return "0", true
+	case SBool:
+		return "false", true
+	case SStr:
+		return `""`, true
+	case SVal:
+		return "nil", true
+	case SSlice:
+		return "", false
+	}
+	return "", false
+}
+
+// schemaFor builds the schema contract of one function for one property; nil if not applicable.
+func (e *Engine) schemaFor(fn *ssa.Function, prop string) *Contract {
+	key := fnKey(fn)
+	rv := recvOf(fn)
+	con := &Contract{Key: key, LoopInv: map[int][]*Clause{}, HasBody: true, Schema: prop, FrameSkip: ghostFrameSkip}
+	if base := e.Contracts[key]; base != nil {
+		con.LoopInv = base.LoopInv
+	}
+	in := rv.inner()
+	pre := func() {
+		if rv.isStack() || rv.isCond() {
+			con.Requires = append(con.Requires, mkClause("requires", "S.wf-or-nil", fmt.Sprintf("%s(%s == nil || %s)", rv.ptrNonNil(), in, rv.wfExpr())))
+		}
+	}
+	switch prop {
+	case "C08":
+		// S-safe + S-wf: returns normally for every argument and keeps the instance well formed
+		if rv.kind == "other" || !hasIntParam(fn) {
+			return nil
+		}
+		pre()
+		con.Tags = []string{"C08"}
+		con.SafetyTags = []string{"C08"}
+		con.NoFrame = true
+		if rv.isStack() {
+			con.Ensures = append(con.Ensures, mkClause("ensures", "S-wf", fmt.Sprintf("old(%s) != nil && %s != nil ==> wf(%s) && cfgOf(%s) == old(cfgOf(%s))", in, in, in, in, in), "C08"))
+			con.Ensures = append(con.Ensures, mkClause("ensures", "S-own", fmt.Sprintf("old(%s) != nil && %s == old(%s) ==> arr(hdr(%s)) == old(arr(hdr(%s))) || fresh(arr(hdr(%s)))", in, in, in, in, in, in), "C08"))
+		}
+		if rv.isCond() {
+			con.Ensures = append(con.Ensures, mkClause("ensures", "S-cwf", fmt.Sprintf("old(%s) != nil && %s == old(%s) ==> cwf(%s)", in, in, in, in), "C08"))
+		}
+		return con
+	case "C17":
+		// S-nil: uninitialised receivers are inert
+		if rv.kind == "none" || rv.kind == "other" {
+			return nil
+		}
+		if _, exc := e.Tables.NilExceptions[key]; exc {
+			return nil
+		}
+		con.Tags = []string{"C17"}
+		con.SafetyTags = []string{"C17"}
+		switch {
+		case rv.isStack() || rv.isCond():
+			con.Requires = append(con.Requires, mkClause("requires", "S.nil", fmt.Sprintf("%s%s == nil", rv.ptrNonNil(), in)))
+		case rv.kind == "Auxiliary":
+			con.Requires = append(con.Requires, mkClause("requires", "S.nil", rv.name+" == nil"))
+		}
+		res := fn.Signature.Results()
+		for i := 0; i < res.Len(); i++ {
+			rn := fmt.Sprintf("result%d", i)
+			if ov, ok := e.Tables.NilResults[key][rn]; ok {
+				if ov != "" {
+					con.Ensures = append(con.Ensures, mkClause("ensures", "S-nil."+rn, ov, "C17"))
+				}
+				continue
+			}
+			rt := res.At(i).Type()
+			tk := typeKey(rt)
+			if tk == "Stack" || tk == "Condition" || tk == "Auxiliary" {
+				if in != "" && (tk == "Stack" && rv.isStack() || tk == "Condition" && rv.isCond()) || rv.kind == "Auxiliary" {
+					con.Ensures = append(con.Ensures, mkClause("ensures", "S-nil."+rn, rn+" == nil", "C17"))
+				}
+				continue
+			}
+			if z, ok := zeroExpr(rt, rv); ok {
+				con.Ensures = append(con.Ensures, mkClause("ensures", "S-nil."+rn, rn+" == "+z, "C17"))
+			} else if sortOfOrInt(rt) == SSlice {
+				con.Ensures = append(con.Ensures, mkClause("ensures", "S-nil."+rn, "len("+rn+") == 0", "C17"))
+			}
+		}
+		if rv.kind == "*Stack" || rv.kind == "*Condition" {
+			con.Ensures = append(con.Ensures, mkClause("ensures", "S-nil.stays", in+" == nil", "C17"))
+		}
+		return con
+	case "C09":
+		if !(rv.isStack() || rv.isCond()) {
+			return nil
+		}
+		if _, exc := e.Tables.ROExceptions[key]; exc {
+			return nil
+		}
+		con.Tags = []string{"C09"}
+		con.SafetyTags = []string{"C09x"}
+		con.Requires = append(con.Requires, mkClause("requires", "S.ro", fmt.Sprintf("%s%s != nil && %s && %s", rv.ptrNonNil(), in, rv.wfExpr(), rv.roExpr())))
+		if extra, ok := e.Tables.ROModifies[key]; ok {
+			for _, part := range splitTop(extra.Modifies, ',') {
+				part = strings.TrimSpace(part)
+				mt := &ModTarget{Comp: part}
+				if i := strings.IndexByte(part, '['); i > 0 && strings.HasSuffix(part, "]") {
+					mt.Comp = part[:i]
+					mt.Idx = strings.TrimSpace(part[i+1 : len(part)-1])
+					if mt.Idx != "fresh" {
+						a, err := parseExpr(mt.Idx)
+						if err != nil {
+							panic(err)
+						}
+						mt.ast = a
+					}
+				}
+				con.Modifies = append(con.Modifies, mt)
+			}
+			if extra.Requires != "" {
+				con.Requires = append(con.Requires, mkClause("requires", "S.ro.extra", extra.Requires))
+			}
+		}
+		if fn.Name() == "Free" {
+			con.Ensures = append(con.Ensures, mkClause("ensures", "S-ro.free", "err != nil", "C09"))
+		}
+		return con
+	case "C11":
+		if !(rv.isStack() || rv.isCond()) {
+			return nil
+		}
+		if _, mut := e.Tables.Mutators[key]; mut {
+			return nil
+		}
+		pre()
+		con.Tags = []string{"C11"}
+		con.SafetyTags = []string{"C11x"}
+		return con
+	}
+	return nil
+}
+
+func (e *Engine) schemaContracts(prop string) map[string]*Contract {
+	out := map[string]*Contract{}
+	switch prop {
+	case "C08", "C09", "C11", "C17":
+	default:
+		return out
+	}
+	for _, fn := range e.exportedAPI() {
+		if c := e.schemaFor(fn, prop); c != nil {
+			out[fnKey(fn)] = c
+		}
+	}
+	e.Active = out
+	return out
+}
 
 func (e *Engine) schemaContract(key string) *Contract { return nil }
 
-func (e *Engine) schemaContracts(prop string) map[string]*Contract { return map[string]*Contract{} }
+func hasIntParam(fn *ssa.Function) bool {
+	ps := fn.Signature.Params()
+	for i := 0; i < ps.Len(); i++ {
+		t := ps.At(i).Type()
+		if sl, ok := t.Underlying().(*types.Slice); ok {
+			t = sl.Elem()
+		}
+		if b, ok := t.Underlying().(*types.Basic); ok && b.Kind() == types.Int {
+			return true
+		}
+	}
+	return false
+}
